@@ -25,10 +25,11 @@ import (
 
 // Batch pack multiple commands, which should be supported by Do method.
 type Batch struct {
-	cluster *Cluster
-	batches []nodeBatch
-	index   []int
-	err     error
+	cluster  *Cluster
+	batches  []nodeBatch
+	index    []int
+	err      error
+	slotNode map[uint16]*redisNode // node chosen for the first command of each slot in this batch
 }
 
 type nodeBatch struct {
@@ -81,7 +82,7 @@ func (batch *Batch) Put(cmd string, args ...interface{}) error {
 		return nil
 	}
 
-	node, err := batch.cluster.ChooseNodeWithCmd(cmd, args...)
+	node, keys, err := batch.cluster.chooseNodeWithCmdAndKeys(cmd, false, args...)
 	if err != nil {
 		err = fmt.Errorf("run ChooseNodeWithCmd error : %w", err)
 		return batch.joinError(err)
@@ -89,6 +90,20 @@ func (batch *Batch) Put(cmd string, args ...interface{}) error {
 	if node == nil {
 		// node is nil means no need to put
 		return nil
+	}
+	if len(keys) > 0 {
+		// the slot map may be refreshed between two Put calls : keep every command of a slot on the node the
+		// first one was routed to, else the per-node groups run concurrently and a later command of a key can
+		// overtake an earlier one that is still being redirected (a stale node simply answers MOVED)
+		slot := hash(keys[0])
+		if batch.slotNode == nil {
+			batch.slotNode = make(map[uint16]*redisNode)
+		}
+		if prev, ok := batch.slotNode[slot]; ok {
+			node = prev
+		} else {
+			batch.slotNode[slot] = node
+		}
 	}
 
 	var i int
